@@ -22,19 +22,6 @@ theorem C09_simp_preserves (ρ : String → Int) (hρ : CaseInsens ρ) (f : Nat)
     (h : simp f pm e = some r) : ev ρ r = ev ρ e :=
   simp_ev ρ hρ f pm e r h
 
-/-- core: the answer agrees with the integer comparison of the operand values -/
-theorem answer_sound (a b : E) (o : CmpOp) (ρ : String → Int) (hρ : CaseInsens ρ)
-    (hk : Known09 a o b = false) (hz : SignZero a b = false) :
-    (symbolicOp a o b = .yes → cmpInt o (ev ρ a) (ev ρ b) = true) ∧
-    (symbolicOp a o b = .no → cmpInt o (ev ρ a) (ev ρ b) = false) := by
-  rw [symbolicOp_resid, cmpInt_sub]
-  cases hr : resid a b with
-  | none => simp
-  | some r =>
-    simp only [Known09, hr] at hk
-    simp only [SignZero, hr] at hz
-    exact ansOf_sound ρ o r _ (resid_ev ρ hρ a b r hr) (by simpa [Bool.and_assoc] using hk) hz
-
 /-- **C09 (partial), answer `True`**: for all fragment operands and all six operators, outside the known class, if the
 modelled `symbolic_op` answers `True` then the comparison holds under every integer valuation. -/
 theorem C09_partial (a b : E) (o : CmpOp) (ha : Frag a = true) (hb : Frag b = true)
